@@ -67,3 +67,13 @@ func verifL0Stop() int {
 	}
 	return 0
 }
+
+// VerifFloorHook, when set, is called by getFloor between its search for the key itself and its search for the
+// closest key below it (a scheduling point for the C02 schedule stage: the engine's own calls are not instrumented).
+var VerifFloorHook func()
+
+func verifFloorPoint() {
+	if h := VerifFloorHook; h != nil {
+		h()
+	}
+}
